@@ -77,6 +77,11 @@ CHECKS = {
         text="Every quadruple of distinct, mutually non-prefixing delimiter strings of length 1-2 over {< > [ ]} (quick, 8 templates) / {< > [ ] $ \\} (thorough, 2.1 M quadruples x 20 templates) is installed with Engine.Delims on a fresh engine, the template is re-spelled with it, and output / error line / error cause must equal those of the default spelling on a default engine; templates cover hyphens on objects, block, clause and end tags, raw and comment blocks, default-delimiter text that must become ordinary text, failing lines and unterminated blocks. Every subset of positions left empty must behave as the default for that position.",
         note="Lengths 3-4 only through a pattern family (not exhaustive). Templates avoid the delimiter alphabet outside delimiters. Errors compared by line number and cause text.",
         tech="exhaustive configuration enumeration (delimiter quadruples) x programs with a differential oracle against the default configuration"),
+    "C20": dict(
+        cat="fault_enumeration", ref="4/C20",
+        text="For 30 templates covering every tag, trim-marker placement and output shape, a fault-free render records the Write calls the engine makes; then for every call index k the writer is made to fail at call k, accepting nothing or a strict prefix (all prefix lengths for short calls), once or forever, through FRender and ParseAndFRender. Each run must return a non-nil SourceError whose cause chain reaches the injected error, never panic, never report success, the bytes accepted up to the failure must be a prefix of the fault-free output, and after a permanent failure at most one more Write may be attempted. Contract-violating short writes (n < len, nil error) are enumerated for totality.",
+        note="One fault per run (rendering must stop at the first failure, so later faults are unreachable). The set of Write calls is taken from the implementation's own fault-free run.",
+        tech="exhaustive fault-point enumeration: every write index x fault shape on the real render path with an injecting io.Writer"),
 }
 
 NOT_YET = "check not built yet (work in progress; see DESIGN.md section 7 build order)"
